@@ -39,11 +39,17 @@ def status_table():
     rows.append("%d property theorems in total (quick tier, seed 1, unchanged tree; regenerated from `evidence/*.json` by `lib/design_status.py`)." % total)
     return "\n".join(rows)
 def seeded_table():
-    rows = ["| seed | change | needs | detected |", "|----|----|----|----|"]
-    for f in sorted(glob.glob(os.path.join(V, "seeded", "*", "meta.json"))):
-        m = json.load(open(f)); name = os.path.basename(os.path.dirname(f))
+    metas = [(os.path.basename(os.path.dirname(f)), json.load(open(f))) for f in sorted(glob.glob(os.path.join(V, "seeded", "*", "meta.json")))]
+    rounds = sorted({(n.split("-") + ["1"])[1] for n, _ in metas}, key=int)
+    det = [m for _, m in metas if m.get("detected")]
+    rows = ["%d seeds in %d rounds; %d recorded as detected (exit 1 with a replay), %d of them only after the generators / clauses were "
+            "strengthened as noted, %d through the check of another property (noted in the row); not detected: %s." % (
+                len(metas), len(rounds), len(det), sum(1 for m in det if m.get("detected_initially") is False or m.get("strengthening")),
+                sum(1 for m in det if m.get("note")), ", ".join(n for n, m in metas if not m.get("detected")) or "none"), "",
+            "| seed | change | needs | detected |", "|----|----|----|----|"]
+    for name, m in metas:
         det = "yes" if m.get("detected") else "NO"
-        if m.get("detected_initially") is False:
+        if m.get("detected_initially") is False or m.get("strengthening"):
             det += " — after strengthening: " + (m.get("strengthening") or "")[:260]
         if m.get("note"):
             det += " — " + m["note"][:200]
